@@ -1,0 +1,21 @@
+//go:build verif
+
+// Contracts for the verification machinery in /verif (comment-only; no declarations).
+//
+// C02: streamWrapper (a stream whose protocol negotiation is still pending) routes every Read/Write through the lazy
+// multistream conn with the caller's own buffer, exactly once, and returns exactly its result: user bytes are not
+// dropped, duplicated or reordered by the wrapper (what the lazy conn does with them is go-multistream's business).
+
+package basichost
+
+//@ func (s *streamWrapper) Read
+//@ prop C02
+//@ ensures ncalls(Read, 0) == 1 && arg(Read, 0, 0) == s.rw && arg(Read, 0, 1) == b
+//@ ensures result0 == ret(Read, 0, 0) && result1 == ret(Read, 0, 1)
+//@ modifies elems(b), ghost.consumed(s.rw)
+
+//@ func (s *streamWrapper) Write
+//@ prop C02
+//@ ensures ncalls(Write, 0) == 1 && arg(Write, 0, 0) == s.rw && arg(Write, 0, 1) == b
+//@ ensures result0 == ret(Write, 0, 0) && result1 == ret(Write, 0, 1)
+//@ modifies nothing
